@@ -94,7 +94,7 @@ TIES = {
     "C04": ["HD", "Base58"], "C05": ["HD", "Base58"], "C06": ["Base58", "Addr"], "C07": ["Base58", "Bech32"],
     "C08": ["Limits"], "C09": ["Limits"], "C10": ["Limits"], "C11": ["Limits"], "C12": ["Limits"],
     "C13": ["Gcs"], "C14": ["Gcs"], "C15": ["HD"], "C16": [], "C17": ["Amount"], "C18": [], "C19": [],
-    "C20": ["Locking", "Gcs"],
+    "C20": ["Locking", "GcsImmutable"],
 }
 for _k, _v in TIES.items():
     PROPS[_k]["ties"] = _v
